@@ -316,6 +316,12 @@ C01_PayloadVisible ==
       \A d \in Deps(t) : seen[t][d].st = "DONE" =>
          /\ seen[t][d].pay = (IF seen[t][d].ex > 0 THEN 2 ELSE 1)
          /\ seen[t][d].clk
+(* "has reached a final state" is more than a final-looking label: a dependency whose entry says DONE from an earlier
+   run but which is out of date will be executed (again) in this call, and a dependent that began on the strength of the
+   stale label began before its dependency finished.  Within one call a dependency never begins an execution after one of
+   its dependents has begun (the counters of the history make this a state predicate). *)
+C01_NoLateDep ==
+   (call = 1) => \A t \in Tasks : Started(t) => \A d \in Deps(t) : execs[d] = seen[t][d].ex
 (* state form: while a task is being executed all its dependencies are final and published *)
 Running(t) == \E w \in Workers : cur[w] = t /\ wpc[w] \in {"publish", "pubstatus"}
 C01_RunningState ==
